@@ -15,7 +15,7 @@ DEFS = ("mpt_loop=drv_mpt_loop", "mpt_notify_wait=hk_notify_wait", "mpt_notify_n
 CFG = {
     "quick":    dict(mcs=["MC_Notify.cfg"], gens=["Gen_Notify.cfg"], dump=False, poll_gen=None, poll_every=4,
                      cxx_every=3, nhist=24, steps=50),
-    "thorough": dict(mcs=["MC_Notify_t.cfg", "MC_Notify_t3.cfg"], gens=["Gen_Notify_t.cfg"], dump=True,
+    "thorough": dict(mcs=["MC_Notify_t.cfg", "MC_Notify_t3.cfg", "MC_Notify_tp.cfg"], gens=["Gen_Notify_t.cfg"], dump=True,
                      poll_gen="Gen_Notify_p.cfg", poll_every=1, cxx_every=1, nhist=300, steps=120),
 }
 POLL_SRC = tuple("mptio/notify/notify_%s.c" % n for n in ("add", "wait", "next", "fini", "bind", "connect"))
@@ -48,9 +48,20 @@ CXX_ACTIONS = {"init", "attach", "set", "clear", "seterror", "add", "addsame", "
                "dispatch", "default", "unreg", "fini"}
 
 
+def no_kill(st):
+    return st["a"] != "wait" or not (st["arg"].get("kill") or [0])[0]
+
+
 def cxx_subset(behs):
-    """behaviours the C++ driver can execute: harness and socket-pair inputs, no listener, no mpt_loop"""
-    return [b for b in behs if all(st["a"] in CXX_ACTIONS and (st["a"] != "add" or st["arg"]["k"] in "hs") for st in b)]
+    """behaviours the C++ driver can execute: harness and socket-pair inputs, no listener, no mpt_loop, handlers
+    through a dispatch object only, no input removing another"""
+    return [b for b in behs if all(st["a"] in CXX_ACTIONS and (st["a"] != "add" or st["arg"]["k"] in "hs") and no_kill(st)
+                                   for st in b)]
+
+
+def poll_subset(behs):
+    """the poll() path has no kernel registration that could refuse a descriptor"""
+    return [b for b in behs if all(st["a"] != "addfile" for st in b)]
 
 
 def build_poll():
@@ -238,7 +249,6 @@ def gen_histories(ck, n, steps, cxx=False):
         shut = set()
         ids = rng.sample([1, 2, 3, 4, 5, 6, 7, 8], rng.randrange(1, 5))
         listener = None
-        extra = 0          # tokens accepted connections may have got (addressed blindly)
         late_listener = rng.random() < 0.5
 
         def hr():
@@ -257,28 +267,49 @@ def gen_histories(ck, n, steps, cxx=False):
                     tok += 1
                     beh.append({"a": "seterror", "arg": {"tok": tok}})
 
+        def mid(i):
+            """message id in front of the messages of id-carrying inputs (connected / accepted sockets: none or an
+            id announcing a reply; read-only pipe: also request ids, nobody can be answered there)"""
+            k = kinds.get(i, "c")
+            if k == "p":
+                return rng.choice([[0, 0], [0, 0], [1, 5], [0, rng.randrange(1, 256)], [128 + rng.randrange(128), rng.randrange(1, 256)]])
+            if k == "c":
+                return rng.choice([[0, 0], [0, 0], [0, 0], [128 + rng.randrange(128), rng.randrange(1, 256)]])
+            return []
+
         def message(i):
             first = rng.choice(ids + ids + [200, 0, 9])
-            return [first, i % 256, rng.randrange(256)] + [rng.randrange(256) for _ in range(rng.choice([0, 0, 1, 5, 40]))]
+            return mid(i) + [first, i % 256, rng.randrange(256)] + [rng.randrange(256) for _ in range(rng.choice([0, 0, 1, 5, 40]))]
+
+        def kill():
+            """now and then a harness input's next() removes another input"""
+            hs = [i for i in kinds if kinds[i] == "h"]
+            if cxx or not hs or rng.random() < 0.7:
+                return [0, 0]
+            return [rng.choice(hs), rng.randrange(1, nin + extra + 1)]
 
         attached = False
-        if rng.random() < 0.9:
+        kinds = {}
+        extra = 0
+        if not cxx and hno % 3 == 0:
+            tok += 1
+            beh.append({"a": "direct", "arg": {"tok": tok}})
+        elif rng.random() < 0.9:
             beh.append({"a": "attach", "arg": {"x": 0}})
             attached = True
             table_ops(rng.randrange(1, 5))
-        kinds = {}
         for _ in range(rng.randrange(2, 7)):
             nin += 1
-            kinds[nin] = rng.choice("hhsss" if cxx else "hhsssccf")
+            kinds[nin] = rng.choice("hhsss" if cxx else "hhssccfpp")
             beh.append({"a": "add", "arg": {"k": kinds[nin], "tok": nin}})
         if hno % 2 == 0:
             # a burst on a fresh library input that fills what it reads in one go (4 messages, 64 bytes on the wire), then the loop
             cand = [i for i in kinds if kinds[i] != "h"]
             if cand:
                 i = rng.choice(cand)
-                n = 12 if kinds[i] == "c" else 14
+                n = 12 if kinds[i] in "cp" else 14
                 for k in range(4):
-                    beh.append({"a": "send", "arg": {"i": i, "data": [rng.choice(ids), i, k] + [rng.randrange(1, 256) for _ in range(n - 3)]}})
+                    beh.append({"a": "send", "arg": {"i": i, "data": ([0, 0] if kinds[i] in "cp" else []) + [rng.choice(ids), i, k] + [rng.randrange(1, 256) for _ in range(n - 3)]}})
                 beh.append({"a": "wait" if cxx else "loop", "arg": {"what": -1, "rvs": [1] * nin} if cxx else {"rs": [0, 0, 1, 0, 0, 0], "rvs": [1] * nin}})
         if hno % 4 == 1:
             # traffic in installments on a fresh socket-pair input: more than it reads in one go, a wait, more, then the loop
@@ -298,6 +329,12 @@ def gen_histories(ck, n, steps, cxx=False):
                             beh.append({"a": "dispatch", "arg": {"r": 0, "clear": 0}})
                 else:
                     beh.append({"a": "loop", "arg": {"rs": [0] * 12, "rvs": [1] * nin}})
+        if hno % 3 == 0 and not cxx:
+            # handler answers with and without the Default flag back to back (two messages buffered on one input)
+            i = rng.randrange(1, nin + 1)
+            beh.append({"a": "send", "arg": {"i": i, "data": message(i)}})
+            beh.append({"a": "send", "arg": {"i": i, "data": message(i)}})
+            beh.append({"a": "loop", "arg": {"rs": [1, 0, 0], "cl": [0, 0, 0], "rvs": [1] * nin, "kill": [0, 0]}})
         if hno % 4 == 2 and not cxx:
             # a listener accepts a connection (the slot table grows) while another input is ready in the same wait
             nin += 1
@@ -305,7 +342,7 @@ def gen_histories(ck, n, steps, cxx=False):
             beh.append({"a": "add", "arg": {"k": "l", "tok": nin}})
             beh.append({"a": "conn", "arg": {"i": listener}})
             beh.append({"a": "send", "arg": {"i": 1, "data": message(1)}})
-            beh.append({"a": "wait", "arg": {"what": -1, "rvs": [1] * nin}})
+            beh.append({"a": "wait", "arg": {"what": -1, "rvs": [1] * nin, "kill": [0, 0]}})
             extra = 1
         for _ in range(steps):
             live = [i for i in range(1, nin + extra + 1) if i not in shut and i != listener]
@@ -324,7 +361,7 @@ def gen_histories(ck, n, steps, cxx=False):
                 beh.append({"a": "shut", "arg": {"i": i, "how": rng.choice(["shut", "close"])}})
             elif op == "wait":
                 rvs = [rng.choice([1, 1, 1, 0, -1]) for _ in range(nin + extra)]
-                beh.append({"a": "wait", "arg": {"what": rng.choice([-1, -1, -1, 1, 1, 4]), "rvs": rvs}})
+                beh.append({"a": "wait", "arg": {"what": rng.choice([-1, -1, -1, 1, 1, 4]), "rvs": rvs, "kill": kill()}})
                 if listener:
                     extra = min(extra + 1, 6)
             elif op == "next":
@@ -338,7 +375,8 @@ def gen_histories(ck, n, steps, cxx=False):
             elif op == "loop":
                 rvs = [rng.choice([1, 1, 1, 1, 0, -1]) for _ in range(nin + extra)]
                 rs = [rng.choice([0, 0, 0, 0, 1, 1, 2, 3, 4, 6, -1]) for _ in range(rng.randrange(0, 12))]
-                beh.append({"a": "loop", "arg": {"rs": rs, "rvs": rvs}})
+                cl = [rng.choice([0, 0, 0, 1]) for _ in rs]
+                beh.append({"a": "loop", "arg": {"rs": rs, "cl": cl, "rvs": rvs, "kill": kill()}})
                 if listener:
                     extra = min(extra + 2, 6)
             elif op == "unreg" and rng.random() < 0.3 and nin:
@@ -346,14 +384,21 @@ def gen_histories(ck, n, steps, cxx=False):
             elif op == "table" and attached:
                 table_ops(1)
             elif op == "attach" and rng.random() < 0.15:
-                beh.append({"a": "attach", "arg": {"x": 0}})
-                attached = True
-                table_ops(rng.randrange(0, 3))
-            elif op == "refuse" and rng.random() < 0.3:
-                if nin and rng.random() < 0.7:
-                    beh.append({"a": "addsame", "arg": {"of": rng.randrange(1, nin + 1)}})
+                if not cxx and rng.random() < 0.4:
+                    tok += 1
+                    beh.append({"a": "direct", "arg": {"tok": tok}})
+                    attached = False
                 else:
+                    beh.append({"a": "attach", "arg": {"x": 0}})
+                    attached = True
+                    table_ops(rng.randrange(0, 3))
+            elif op == "refuse" and rng.random() < 0.3:
+                if nin and rng.random() < 0.6:
+                    beh.append({"a": "addsame", "arg": {"of": rng.randrange(1, nin + 1)}})
+                elif cxx or rng.random() < 0.4:
                     beh.append({"a": "addbad", "arg": {"x": 0}})
+                else:
+                    beh.append({"a": "addfile", "arg": {"x": 0}})
             elif op == "listen" and late_listener and listener is None and rng.random() < 0.5:
                 # the listener is the last input added: what it accepts gets the following tokens
                 nin += 1
@@ -454,9 +499,9 @@ def run_part(ck, tier):
         gen = vlib.tlc("Gen_Notify", cfg["poll_gen"], workers=1, tag="Gen_Notify_p")
         if gen.error or gen.violation:
             raise vlib.MachineryError("behaviour export failed (%s): %s %s" % (cfg["poll_gen"], gen.error, gen.violation))
-        pbehs = vlib.parse_behaviours(gen.out)
+        pbehs = poll_subset(vlib.parse_behaviours(gen.out))
     else:
-        pbehs = [b for b in behs if all("exp" in st for st in b)][::cfg["poll_every"]]
+        pbehs = poll_subset([b for b in behs if all("exp" in st for st in b)])[::cfg["poll_every"]]
     MODE[0] = "poll:"
     try:
         precs, pdone = run_chunks(expoll, pbehs)
